@@ -130,6 +130,34 @@ func runC17(c *Ctx) {
 		R.Ob("toSMTPErr/strips the code from every further line", c.P.Pos(f.Pos()), ok, "client no longer strips the repeated enhanced code")
 	}
 
+	R.Rule("R-enhcode-parse", "E3", "parseEnhancedCode accepts a token only if it has exactly three dot-separated parts, each of them an integer", 3)
+	if f := c.A.Func("parseEnhancedCode"); f != nil {
+		nOK := 0
+		allInstrs(f, func(in ssa.Instruction) {
+			r, ok := in.(*ssa.Return)
+			if !ok || len(r.Results) != 2 || !isNilConst(r.Results[1]) {
+				return
+			}
+			nOK++
+			c.obUnreach("accepted code", in, `builtin:len(strings.Split(param0,".")) != 3`)
+			c.obUnreach("accepted code", in, `builtin:len(strings.Split(param0,".")) > 3`)
+			c.obUnreach("accepted code", in, `builtin:len(strings.Split(param0,".")) < 3`)
+		})
+		R.Ob("parseEnhancedCode/has an accepting return", c.P.Pos(f.Pos()), nOK >= 1, "no nil-error return")
+		for _, at := range s.Find(f, "call:strconv.Atoi") {
+			at := at
+			v := RunPend(f, PendRule{
+				Trig: func(in ssa.Instruction) bool { return in == at },
+				Disch: func(in ssa.Instruction) bool {
+					iff, ok := in.(*ssa.If)
+					return ok && strings.Contains(describe(iff.Cond), "strconv.Atoi(") && strings.Contains(describe(iff.Cond), "#1")
+				},
+				Forbid: func(in ssa.Instruction) bool { st, ok := in.(*ssa.Store); return ok && strings.Contains(describe(st.Val), "strconv.Atoi(") },
+			})
+			R.Ob(c.siteKey(at, "part must be an integer"), c.P.InstrPos(at), len(v) == 0, "a part of the code is used without testing Atoi's error")
+		}
+	}
+
 	R.Rule("R-client-parse", "E4 + who-may-call", "every reply read by the client goes through readResponse, which converts textproto.Error with toSMTPErr; toSMTPErr copies the code and separates enhanced code and text", 4)
 	for _, f := range c.P.AllFuncs() {
 		if !strings.HasPrefix(funcName(f), "(*Client).") && !strings.HasPrefix(funcName(f), "(*dataCloser).") {
